@@ -66,8 +66,9 @@ package endorse
 //@   ensures[C15] cops == nil ==> copsCalls == old(copsCalls) && vcGetOps == old(vcGetOps)
 
 //@ func addEndorsement
-//@   ensures[C13] true
-//@   requires[C13] forall(i, 0 <= i && i < len(endorsementMap.Entries) ==> endorsementMap.Entries[i] != nil)
+//@   ensures[C13] err == nil && cops != nil ==> copsWrites > old(copsWrites)
+// (validity assumption: a decoded manifest has no nil entries — protobuf decoding never yields nil elements)
+//@   requires[assume] forall(i, 0 <= i && i < len(endorsementMap.Entries) ==> endorsementMap.Entries[i] != nil)
 //@   modifies copsCalls, lastRead, lastReadErr, marshalOf, copsWrites, checkedMissing
 //@   requires ecOf(ctx) != nil
 //@   requires endorsementMap != nil
@@ -83,7 +84,10 @@ package endorse
 //@   sweep[C15] nilinvoke nilcall
 //@   ensures[C15] cops == nil ==> copsCalls == old(copsCalls) && vcGetOps == old(vcGetOps)
 
+// C13 (order): the manifest is written only after this attempt's endorsement file has been written, so a fault
+// between the two leaves a manifest whose entries all name existing files.
 //@ func changeEndorsements
+//@   atcall WriteOrCreateFiles requires[C13] copsWrites >= old(copsWrites) + 1
 //@   modifies copsCalls, lastRead, lastReadErr, copsWrites, checkedMissing, marshalOf, parsedWasLastRead, pbsrc, pbok
 //@   requires ecOf(ctx) != nil && ecOf(ctx).VCS != nil && (cops == nil) == ecOf(ctx).DryRun
 //@   sweep[C15] nilinvoke nilcall
